@@ -1,13 +1,13 @@
 #!/bin/bash
 # usage: confirm_seed.sh <ID> <demo file name> -- re-confirm a seeded change in its scratch worktree:
 #   suite passes with the change; demo fails with it and passes without it.
-id="$1"; demo="$2"; wt="/tmp/mut_$id"
+id="$1"; demo="$2"; wt="${3:-/tmp/mut_$id}"; seed="${4:-/verif/seeded/$id}"
 export CARGO_TARGET_DIR="$wt/target" CARGO_NET_OFFLINE=true
 cd "$wt" || exit 2
-git checkout -q -- src && git apply "/verif/seeded/$id/patch.diff" || { echo "patch does not apply"; exit 2; }
+git checkout -q -- src && git apply "$seed/patch.diff" || { echo "patch does not apply"; exit 2; }
 mkdir -p tests; rm -f tests/demo_*.rs
 suite=$(cargo test --offline --no-fail-fast 2>&1 | grep -E "^test result" | awk '{p+=$4; f+=$6} END {print "passed=" p " failed=" f}')
-cp "/verif/seeded/$id/$demo" tests/
+cp "$seed/$demo" tests/
 with=$(cargo test --offline --test "${demo%.rs}" 2>&1 | grep -E "^test result" | head -1)
 git checkout -q -- src
 without=$(cargo test --offline --test "${demo%.rs}" 2>&1 | grep -E "^test result" | head -1)
